@@ -4,7 +4,7 @@ PROP = dict(
         level="model_checking", shards=1,
         targets=[
             dict(name="wire", pkg="internal/wire", test="TestVerifC08Wire", files=["mc/c08/wire/*.go"],
-                 parts=["varint", "frame-types", "bytes-frames", "bytes-headers", "lattice-frames", "lattice-headers",
+                 parts=["varint", "frame-types", "bytes-frames", "bytes-headers", "lattice-frames", "lattice-headers", "frame-history",
                         "tparams-values", "tparams-table", "tparams-narrowing"]),
             dict(name="hs", pkg="internal/handshake", test="TestVerifC08Handshake", files=["mc/c08/hs/*.go"],
                  parts=["tokens", "tickets"]),
